@@ -109,6 +109,9 @@ def checkC13 (steps : List Step) : Option (Nat × String) := Id.run do
   let mut s : Seen := {}
   let mut idx := 0
   let mut pairs : List (Nat × Nat) := []
+  -- the Hellos heard in the CURRENT block as the specification counts them (`C13.block_count`): none when an enumeration
+  -- starts (band_init_stats, the constructor) and when a block ends, one more per Hello heard; unknown until the first of these
+  let mut specR : List (Nat × Nat) := []
   for st in steps do
     let s' := absorb s st.out
     match st.op with
@@ -116,12 +119,26 @@ def checkC13 (steps : List Step) : Option (Nat × String) := Id.run do
       match parseDec a with
       | some A =>
         match s.band.lookup A, s'.band.lookup A with
-        | some pre, some post =>
+        | some pre0, some post =>
+          let pre : Band := { pre0 with r := (specR.lookup A).getD pre0.r }
           if !holdsC13Update pre post then
-            return some (idx, s!"band_update_stats: r={pre.r} begun={pre.begun} Ni {pre.ni} -> {post.ni}, formula gives {niFormula pre.r}")
+            return some (idx, s!"band_update_stats: {pre.r} Hellos heard in this block (the record says r={pre0.r}) begun={pre.begun} Ni {pre.ni} -> {post.ni}, formula gives {niFormula pre.r}")
           if pre.r > 0 && pre.begun then pairs := (pre.r, post.ni) :: pairs
+          specR := upd specR A 0
         | _, _ => pure ()
       | none => pure ()
+    | ["band", "init", a] =>
+      match parseDec a with
+      | some A => specR := upd specR A 0
+      | none => pure ()
+    | ["fsm", "new", a, "enum"] =>
+      match parseDec a with
+      | some A => specR := upd specR A 0
+      | none => pure ()
+    | "band" :: "set" :: a :: _ :: r :: _ =>
+      match parseDec a, parseDec r with
+      | some A, some rv => specR := upd specR A rv            -- a direct field write of the test script
+      | _, _ => pure ()
     | ["band", "choose", a] =>
       match parseDec a with
       | some A =>
@@ -138,15 +155,20 @@ def checkC13 (steps : List Step) : Option (Nat × String) := Id.run do
         | some pre, some post =>
           if !holdsC13Heard pre post then
             return some (idx, s!"band_on_hello_received: r {pre.r} -> {post.r} (one Hello heard must add exactly one), Ni {pre.ni} -> {post.ni}")
+          match specR.lookup A with
+          | some n => specR := upd specR A ((n + 1) % 4294967296)
+          | none => pure ()
         | _, _ => pure ()
       | none => pure ()
     | ["tick", _, e, _, _] =>
       match parseDec e with
       | some E =>
         match s.band.lookup E, s'.band.lookup E with
-        | some pre, some post =>
+        | some pre0, some post =>
+          let pre : Band := { pre0 with r := (specR.lookup E).getD pre0.r }
           if !holdsC13Tick pre post s.clock then
-            return some (idx, s!"automata_tick ended a block at {s.clock} ms: r={pre.r} begun={pre.begun} Ni {pre.ni} -> {post.ni}, next Hello at {post.helloTs}, load formula allows no sooner than {s.clock + loadInterval post.ni}")
+            return some (idx, s!"automata_tick ended a block at {s.clock} ms: {pre.r} Hellos heard in this block (the record says r={pre0.r}) begun={pre.begun} Ni {pre.ni} -> {post.ni}, next Hello at {post.helloTs}, load formula allows no sooner than {s.clock + loadInterval post.ni}")
+          if post.blockTs = s.clock + 300 ∧ post.blockTs ≠ pre.blockTs then specR := upd specR E 0
         | _, _ => pure ()
       | none => pure ()
     | _ => pure ()
@@ -176,6 +198,19 @@ def noteInput (s : Seen) (op : List String) : Seen :=
     | some A => { s with specLast := upd s.specLast A (s.clock / 1000) } | none => s
   | _ => s
 
+/-- `fsm stepj` (the clock moves while the call runs): the specification times the event at the reading on entry; only when
+    the call found the state expired — the function then calls itself and stamps a later reading — is the stamp the
+    implementation reports taken over -/
+def noteStepj (s0 s' sNext : Seen) (A : Nat) (tos : List Nat) (clockMs : Nat) : Seen :=
+  let now := clockMs / 1000
+  match s0.fsm.lookup A, s'.fsm.lookup A with
+  | some f, some post =>
+    let last := (s0.specLast.lookup A).getD f.lastTs
+    let tmo := timeoutOf tos f.state
+    let within := tmo = 0 ∨ now - last ≤ tmo
+    { sNext with specLast := upd sNext.specLast A (if within then now else post.lastTs) }
+  | _, _ => sNext
+
 def preFsm (s : Seen) (A : Nat) : Option Fsm :=
   match s.fsm.lookup A with
   | some f => some { state := f.state, lastTs := (s.specLast.lookup A).getD f.lastTs }
@@ -202,6 +237,21 @@ def checkC14 (steps : List Step) : Option (Nat × String) := Id.run do
             let tmo := timeoutOf X.mappingTimeouts pre.state
             if pre.state < 3 && !holdsC14Step tmo pre post inp (s.clock / 1000) then
               return some (idx, s!"mapping engine: state {pre.state} (last input at {pre.lastTs} s, timeout {tmo}) input {inp} at {s.clock / 1000} s -> state {post.state} last={post.lastTs}; specified: {mapSpec pre.state inp}")
+          | _, _ => pure ()
+      | _, _ => pure ()
+    | ["fsm", "stepj", a, i, _] =>
+      match parseDec a, parseInt i with
+      | some A, some inp =>
+        if kindOf s0 A == "map" then
+          match preFsm s0 A, s'.fsm.lookup A with
+          | some pre, some post =>
+            let tmo := timeoutOf X.mappingTimeouts pre.state
+            let now := s.clock / 1000
+            let within := tmo = 0 ∨ now - pre.lastTs ≤ tmo
+            -- the decision is the one for the time of entry; an event that does not find the state expired stamps that time
+            let post' : Fsm := if within then post else { post with lastTs := now }
+            if pre.state < 3 && !holdsC14Step tmo pre post' inp now then
+              return some (idx, s!"mapping engine (clock moving during the call): state {pre.state} (last input at {pre.lastTs} s, timeout {tmo}) input {inp} entered at {now} s -> state {post.state} last={post.lastTs}; specified: {mapSpec pre.state inp}, stamped {now}")
           | _, _ => pure ()
       | _, _ => pure ()
     | ["tick", m, _, t, _] =>
@@ -241,7 +291,12 @@ def checkC14 (steps : List Step) : Option (Nat × String) := Id.run do
       | some A => inactSpec := upd inactSpec A 0
       | none => pure ()
     | _ => pure ()
-    s := noteInput s' st.op
+    let sN := noteInput s' st.op
+    s := match st.op with
+      | ["fsm", "stepj", a, _, _] => (match parseDec a with
+        | some A => if kindOf s0 A == "map" then noteStepj s0 s' sN A X.mappingTimeouts s.clock else sN
+        | none => sN)
+      | _ => sN
     idx := idx + 1
   return none
 
@@ -263,8 +318,24 @@ def checkC15 (steps : List Step) : Option (Nat × String) := Id.run do
               return some (idx, s!"session automaton: state {pre.state} (last {pre.lastTs} s, timeout {tmo}) event {inp} at {s.clock / 1000} s -> state {post.state}; specified: {sessSpec pre.state inp}")
           | _, _ => pure ()
       | _, _ => pure ()
+    | ["fsm", "stepj", a, i, _] =>
+      match parseDec a, parseInt i with
+      | some A, some inp =>
+        if kindOf s0 A == "sess" then
+          match preFsm s0 A, s'.fsm.lookup A with
+          | some pre, some post =>
+            let tmo := timeoutOf X.sessionTimeouts pre.state
+            if pre.state < 4 && !holdsC15Step tmo pre post inp (s.clock / 1000) then
+              return some (idx, s!"session automaton (clock moving during the call): state {pre.state} (last event at {pre.lastTs} s, timeout {tmo}) event {inp} entered at {s.clock / 1000} s -> state {post.state}; specified: {sessSpec pre.state inp}")
+          | _, _ => pure ()
+      | _, _ => pure ()
     | _ => pure ()
-    s := noteInput s' st.op
+    let sN := noteInput s' st.op
+    s := match st.op with
+      | ["fsm", "stepj", a, _, _] => (match parseDec a with
+        | some A => if kindOf s0 A == "sess" then noteStepj s0 s' sN A X.sessionTimeouts s.clock else sN
+        | none => sN)
+      | _ => sN
     idx := idx + 1
   return none
 
